@@ -395,7 +395,7 @@ Method(f, recv, args, kw, log) ==
    [] f = "last" /\ coll /\ n = 1 /\ ~lam1 -> R(IF xs = <<>> THEN a1 ELSE xs[Len(xs)], log)
    [] f = "single" /\ coll /\ n = 0 -> IF Len(xs) # 1 THEN E ELSE R(xs[1], log)
    [] f \in {"len", "count"} /\ (coll \/ IsDict(recv)) /\ n = 0 -> R(I(Len(recv[2])), log)
-   [] f = "len" /\ IsStr(recv) /\ n = 0 -> R(ErrV, log)        \* strings: C19's module
+   [] f = "len" /\ IsStr(recv) /\ n = 0 -> R(<<"e", "unmodelled">>, log)        \* strings: C19's module
    [] f = "sum" /\ coll /\ n = 0 -> IF xs = <<>> THEN E ELSE R(SumFold(Tail(xs), xs[1]), log)
    [] f = "sum" /\ coll /\ n = 1 -> R(SumFold(xs, a1), log)
    [] f = "max" /\ coll /\ n = 0 -> IF xs = <<>> THEN E ELSE IF ~AllOrd(xs) THEN R(<<"e", "unmodelled">>, log) ELSE R(MaxL(xs, xs[1]), log)
